@@ -83,15 +83,22 @@ Section Dists.
     if negb (in_unit x) then 0
     else pow x (a - 1) * pow (1 - x) (b - 1) / Bet a b.
   (** [2_f64.powf(half_k)] is compiled to [exp2(half_k)] *)
+  (** [f64::INFINITY], as a quotient (1/0 = +inf on binary64) *)
+  Definition pinf : T := 1 / 0.
+  (** the factors that depend on [x] are combined in log space (x^(k/2-1) overflows far in the upper tail long
+      before the density does); at [x = 0] the limit from the right, at [+inf] 0 *)
   Definition pdf_chisq (k : Z) (x : T) : T :=
     if ((k =? 1)%Z && (x <=? 0)) || (x <? 0) then 0
     else let h := ofZ O k / 2 in
-         1 / (f1 O Exp2 h * Gam h) * pow x (h - 1) * exp (- x / 2).
+         let norm := f1 O Exp2 h * Gam h in
+         if eqb O x 0 then (if (k =? 2)%Z then 1 / norm else 0)
+         else if eqb O x pinf then 0
+         else exp ((h - 1) * ln x - x / 2) / norm.
   Definition pdf_exponential (l x : T) : T :=
     if x <? 0 then 0 else l * exp (- l * x).
   Definition pdf_gamma (a b x : T) : T :=
-    if x <=? 0 then 0
-    else pow b a / Gam a * pow x (a - 1) * exp (- b * x).
+    if (x <=? 0) || eqb O x pinf then 0
+    else exp (a * ln b + (a - 1) * ln x - b * x) / Gam a.
   Definition pdf_gumbel (mu b x : T) : T :=
     let z := (x - mu) / b in 1 / b * exp (- (z + exp (- z))).
   Definition pdf_normal (mu s x : T) : T :=
